@@ -8,6 +8,7 @@ trap 'git -C /repo worktree remove --force $WT; rm -rf $WT /tmp/canary_replays.$
 fail=0
 jq -r '.[] | select(.status=="fixed" and .commit != "" and .kind != "demo") | "\(.commit) \(.property)"' known_findings.json | sort -u | while read c p; do
   if [ $# -gt 0 ] && ! echo "$@" | grep -q "$c"; then continue; fi
+  if [ -n "${CANARY_PROP:-}" ] && [ "$p" != "$CANARY_PROP" ]; then continue; fi
   if ! git -C $WT revert --no-commit $c >/dev/null 2>&1; then echo "$c $p REVERT-DOES-NOT-APPLY"; git -C $WT revert --abort 2>/dev/null; git -C $WT reset -q --hard HEAD; continue; fi
   out=$(./bin/govc -repo $WT -prop $p -replays /tmp/canary_replays.$$ -j 12 2>&1)
   n=$(echo "$out" | grep -c "^VIOLATION")
